@@ -41,6 +41,11 @@ type ExecCase struct {
 	Stdin     string            `json:"stdin,omitempty"`
 	Files     map[string]string `json:"files,omitempty"`
 	Goroutines int              `json:"goroutines,omitempty"`
+	// a second run of the SAME parse result with other inputs (must equal a run of a fresh parse with them)
+	// (account, asset) pairs for which the store's content holds a nil amount (`null` in JSON): read as absent
+	NilBalances map[string][]string `json:"nilBalances,omitempty"`
+	AltVars     map[string]string            `json:"altVars,omitempty"`
+	AltBalances map[string]map[string]string `json:"altBalances,omitempty"`
 }
 
 type StoreCallLog struct {
@@ -81,6 +86,10 @@ func (s *recStore) GetBalances(ctx context.Context, q interpreter.BalanceQuery) 
 		for a, m := range s.balances {
 			out[a] = interpreter.AccountBalance{}
 			for c, v := range m {
+				if v == nil {
+					out[a][c] = nil
+					continue
+				}
 				out[a][c] = new(big.Int).Set(v)
 			}
 		}
@@ -89,7 +98,7 @@ func (s *recStore) GetBalances(ctx context.Context, q interpreter.BalanceQuery) 
 		out := interpreter.Balances{}
 		for a, cs := range q {
 			for _, c := range cs {
-				if v, ok := s.balances[a][c]; ok && v.Sign() != 0 {
+				if v, ok := s.balances[a][c]; ok && v != nil && v.Sign() != 0 {
 					if out[a] == nil {
 						out[a] = interpreter.AccountBalance{}
 					}
@@ -103,7 +112,9 @@ func (s *recStore) GetBalances(ctx context.Context, q interpreter.BalanceQuery) 
 		for a, cs := range q {
 			out[a] = interpreter.AccountBalance{}
 			for _, c := range cs {
-				if v, ok := s.balances[a][c]; ok {
+				if v, ok := s.balances[a][c]; ok && v == nil {
+					out[a][c] = nil
+				} else if ok {
 					out[a][c] = new(big.Int).Set(v)
 				} else {
 					out[a][c] = big.NewInt(0)
@@ -168,6 +179,22 @@ func mkBalances(in map[string]map[string]string) interpreter.Balances {
 	return out
 }
 
+// balances of a case, plus its nil entries
+func mkBal(c *ExecCase) interpreter.Balances {
+	out := mkBalances(c.Balances)
+	for a, cs := range c.NilBalances {
+		if out[a] == nil {
+			out[a] = interpreter.AccountBalance{}
+		}
+		for _, cur := range cs {
+			if _, ok := out[a][cur]; !ok {
+				out[a][cur] = nil
+			}
+		}
+	}
+	return out
+}
+
 func mkMeta(in map[string]map[string]string) interpreter.AccountsMetadata {
 	out := interpreter.AccountsMetadata{}
 	for a, m := range in {
@@ -190,7 +217,7 @@ func balancesEqual(a, b interpreter.Balances) bool {
 		}
 		for c, v := range m {
 			v2, ok := m2[c]
-			if !ok || v.Cmp(v2) != 0 {
+			if !ok || (v == nil) != (v2 == nil) || (v != nil && v.Cmp(v2) != 0) {
 				return false
 			}
 		}
@@ -375,7 +402,7 @@ func execCase(c *ExecCase) map[string]any {
 		result["unsupported"] = unsup
 	}
 
-	bal := mkBalances(c.Balances)
+	bal := mkBal(c)
 	meta := mkMeta(c.Meta)
 	vars := copyVars(c.Vars)
 
@@ -384,7 +411,7 @@ func execCase(c *ExecCase) map[string]any {
 	fillOut(&o, first)
 
 	// C11: inputs must not be modified
-	if !balancesEqual(bal, mkBalances(c.Balances)) {
+	if !balancesEqual(bal, mkBal(c)) {
 		o.Mutated = append(o.Mutated, "balances")
 	}
 	if !reflect.DeepEqual(meta, mkMeta(c.Meta)) {
@@ -400,6 +427,27 @@ func execCase(c *ExecCase) map[string]any {
 		result["apiDiff"] = d
 	}
 
+	// a parse result carries no memory of the runs made with it: the same tree run with OTHER variable values and
+	// balances gives what a fresh parse of the text gives with them
+	if c.AltVars != nil || c.AltBalances != nil {
+		av, ab := c.AltVars, c.AltBalances
+		if av == nil {
+			av = c.Vars
+		}
+		if ab == nil {
+			ab = c.Balances
+		}
+		var reused, fresh ExecOut
+		fillOut(&reused, runOnce(pr.Value, c, copyVars(av), mkBalances(ab), mkMeta(c.Meta)))
+		pr2 := parser.Parse(c.Script)
+		fillOut(&fresh, runOnce(pr2.Value, c, copyVars(av), mkBalances(ab), mkMeta(c.Meta)))
+		if !reflect.DeepEqual(canonOut(reused), canonOut(fresh)) {
+			ja, _ := json.Marshal(canonOut(reused))
+			jb, _ := json.Marshal(canonOut(fresh))
+			result["altDiff"] = "re-used parse result: " + string(ja) + " ; fresh parse: " + string(jb)
+		}
+	}
+
 	// C11: repeated runs on the same ParseResult and the same (caller-owned) inputs
 	if c.Repeat > 1 {
 		diffs := []string{}
@@ -409,6 +457,13 @@ func execCase(c *ExecCase) map[string]any {
 			if !reflect.DeepEqual(canonOut(o), canonOut(o2)) {
 				diffs = append(diffs, fmt.Sprintf("run %d differs", i))
 			}
+		}
+		// the result of the first run is a value: later runs must not change it (pooled or shared numbers)
+		var o3 ExecOut
+		fillOut(&o3, first)
+		o3.Mutated = o.Mutated
+		if !reflect.DeepEqual(canonOut(o), canonOut(o3)) {
+			diffs = append(diffs, "the result returned by the first run changed while later runs were made")
 		}
 		result["repeatDiffs"] = diffs
 	}
@@ -420,7 +475,7 @@ func execCase(c *ExecCase) map[string]any {
 		for k := 1; k <= len(pr.Value.Statements); k++ {
 			sub := parser.Program{Vars: pr.Value.Vars, Statements: pr.Value.Statements[:k]}
 			var ok2 ExecOut
-			fillOut(&ok2, runOnce(sub, c, copyVars(c.Vars), mkBalances(c.Balances), mkMeta(c.Meta)))
+			fillOut(&ok2, runOnce(sub, c, copyVars(c.Vars), mkBal(c), mkMeta(c.Meta)))
 			if ok2.Outcome != "ok" || len(ok2.Postings) > len(o.Postings) || !reflect.DeepEqual(ok2.Postings, o.Postings[:len(ok2.Postings)]) {
 				okPrefix = false
 				break
@@ -460,7 +515,7 @@ func apiDiffs(c *ExecCase, direct ExecOut) (diffs []string) {
 	if len(pr.GetParsingErrors()) != len(parser.Parse(c.Script).Errors) {
 		diffs = append(diffs, "GetParsingErrors differs from parser.Parse")
 	}
-	bal := mkBalances(c.Balances)
+	bal := mkBal(c)
 	meta := mkMeta(c.Meta)
 	store := &recStore{policy: c.Store, balances: bal, meta: meta, failAt: c.FailAt,
 		static: interpreter.StaticStore{Balances: bal, Meta: meta}}
